@@ -1,14 +1,14 @@
 SPECIFICATION Spec
 CONSTANTS
-  MaxN = 4
+  MaxN = 5
   NameSet = {"a", "b"}
   Prefixes = {}
   Uris = {}
   Texts = {}
   Keys = {}
   MaxLevel = 99
-  NameVectors <- NoVectors
-  InitMode = "all"
+  NameVectors <- Edit5Vectors
+  InitMode = "vectors"
   LogFields = {"name", "kids"}
   Ops = {"add_child", "insert", "remove_child", "remove_child_fail", "remove_children", "replace_child", "replace_child_fail", "shift", "shift_fail"}
 VIEW StateView
